@@ -129,7 +129,8 @@ func faultRole(w *World, path string, targets []string, closure []string) string
 }
 
 // judgeFault builds one (world, selection) with one injected fault and returns the violation, if any.
-func judgeFault(ctx context.Context, w *World, files map[string]string, sel Selection, plan FaultPlan, targets []string, direct *Direct, cnt counters) (v *violation, fired bool, built bool) {
+// Violations the fault-free build of the same selection shows too (control) are not the fault's doing and are skipped.
+func judgeFault(ctx context.Context, w *World, files map[string]string, sel Selection, plan FaultPlan, targets []string, direct *Direct, control map[string]bool) (v *violation, fired bool, built bool) {
 	fb := &faultBucket{ReadBucket: bufx.MemBucket(files), plan: plan}
 	ws, err := bufx.Workspace(ctx, fb, sel.SubDir, sel.Paths, sel.Excludes, bufx.NopProviders)
 	var obs []obsFile
@@ -144,20 +145,19 @@ func judgeFault(ctx context.Context, w *World, files map[string]string, sel Sele
 	if err != nil {
 		return nil, fired, false
 	}
-	vs := checkImage("api", &expectation{world: w, targets: targets, direct: direct}, obs, cnt)
+	if !fired {
+		return nil, false, true // the build never touched the faulty operation: it is the control build again
+	}
+	vs := checkImage("api", &expectation{world: w, targets: targets, direct: direct}, obs, counters{})
 	for _, x := range vs {
-		if strings.Contains(x.sig, "/harness/") {
+		if strings.Contains(x.sig, "/harness/") || control[x.sig] {
 			continue
 		}
 		role := faultRole(w, plan.Path, targets, direct.closure(targets))
-		how := "was never reached"
-		if fired {
-			how = "was hit"
-		}
 		return &violation{
 			sig: "api/fault/" + role + "/" + strings.TrimPrefix(x.sig, "api/"),
-			what: fmt.Sprintf("%s with read fault %s (%s; the fault %s): an image was built that is not the compilation of the workspace's texts: %s",
-				sel, plan, role, how, x.what),
+			what: fmt.Sprintf("%s with read fault %s (%s; the fault was hit): an image was built that is not the compilation of the workspace's texts: %s",
+				sel, plan, role, x.what),
 		}, fired, true
 	}
 	return nil, fired, true
@@ -198,15 +198,22 @@ func (rn *runner) runFaultPhase() {
 		defer rn.merge(cnt)
 		files := w.BucketFiles()
 		// control: the same selections without a fault go through the ordinary oracle (signatures api/...)
+		// selections: every input directory; thorough adds, for the input ".", every single --path / --exclude-path
 		sels := subDirSelections(w)
+		nSub := len(sels)
 		if !quick {
-			sels = selections(w, selSingles, false)
+			for _, x := range pathSelections(".", pathCandidates(w), 1, 1, true) {
+				if len(x.Paths)+len(x.Excludes) == 1 {
+					sels = append(sels, x)
+				}
+			}
 		}
-		rn.runWorld("fault", s, w, sels, directFor)
+		control := rn.runWorld("fault", s, w, sels, directFor)
 		paths := bufx.SortedKeys(files)
 		caseNo := 0
-		for _, sel := range sels {
+		for si, sel := range sels {
 			sel := sel
+			reduced := quick || si >= nSub // persistent faults only, the two error values alternate
 			targets := refTargets(w, sel)
 			if len(targets) == 0 || selectionMayBeRejected(w, sel) {
 				continue
@@ -220,13 +227,13 @@ func (rn *runner) runFaultPhase() {
 					caseNo++
 					for ei, e := range faultErrs {
 						for mi, mode := range faultModes {
-							if quick && (mi > 0 || ei != caseNo%len(faultErrs)) {
-								continue // quick: persistent faults, the two error values alternate
+							if reduced && (mi > 0 || ei != caseNo%len(faultErrs)) {
+								continue
 							}
 							plan := FaultPlan{Path: p, Op: op, Err: e, Mode: mode}
 							r.Eval(1)
 							cnt.add("fault_builds", 1)
-							v, fired, built := judgeFault(rn.ctx, w, files, sel, plan, targets, direct, counters{})
+							v, fired, built := judgeFault(rn.ctx, w, files, sel, plan, targets, direct, control[sel.String()])
 							role := faultRole(w, p, targets, direct.closure(targets))
 							switch {
 							case !built && fired:
